@@ -56,6 +56,10 @@ TIES = {
                        what="AValue._clip / __add__ / __sub__ / __index__ and ATally._clip (harness/translate_aval.py -> lean/GenV/Value.lean)",
                        reg=[("C10", ["DsProofs.TieV.TIEV_avalue_clip", "DsProofs.TieV.TIEV_atally_clip", "DsProofs.TieV.TIEV_add", "DsProofs.TieV.TIEV_add_box",
                                      "DsProofs.TieV.TIEV_sub", "DsProofs.TieV.TIEV_index"])]),
+    "addcall": dict(translator="translate_add", targets=["GenA", "TieA"], audit="AuditTieA.lean", root="TieA", driver=None,
+                    modules=["GenA.Call", "TieA.Properties"],
+                    what="ADD.__call__ (harness/translate_add.py -> lean/GenA/Call.lean)",
+                    reg=[("C10", ["DsProofs.TieA.TIEA_call"])]),
     "joint": dict(translator="translate_joint", targets=["GenJ", "TieJ"], audit="AuditTieJ.lean", root="TieJ", driver=None,
                   modules=["GenJ.Joint", "TieJ.Properties"],
                   what="JointUtility.null_score / mean_score / elementwise_score / elementwise_null_score / __call__ (harness/translate_joint.py -> lean/GenJ/Joint.lean)",
@@ -110,7 +114,7 @@ def build(targets=("Ds", "DsProofs", "dsdriver"), timeout=3000):
 
 def _closure():
     """Lean files of this project reachable from the build roots (Ds, DsProofs, Driver, Audit)"""
-    seen, todo = set(), ["Ds", "DsProofs", "Driver", "Audit", "Gen", "Tie", "GenDriver", "AuditTie", "GenB", "TieB", "GenBDriver", "AuditTieB", "GenJ", "TieJ", "AuditTieJ", "GenM", "TieM", "GenMDriver", "AuditTieM", "GenU", "TieU", "AuditTieU", "GenQ", "TieQ", "GenQDriver", "AuditTieQ", "GenV", "TieV", "AuditTieV"]
+    seen, todo = set(), ["Ds", "DsProofs", "Driver", "Audit", "Gen", "Tie", "GenDriver", "AuditTie", "GenB", "TieB", "GenBDriver", "AuditTieB", "GenJ", "TieJ", "AuditTieJ", "GenM", "TieM", "GenMDriver", "AuditTieM", "GenU", "TieU", "AuditTieU", "GenQ", "TieQ", "GenQDriver", "AuditTieQ", "GenV", "TieV", "AuditTieV", "GenA", "TieA", "AuditTieA"]
     while todo:
         m = todo.pop()
         path = os.path.join(LEAN_DIR, m.replace(".", "/") + ".lean")
